@@ -3,7 +3,11 @@
 # Confirms a seeded breaking change in the scratch worktree /tmp/seed/wt-<Cxx> (never in /repo):
 #  demo passes without the change, fails with it; the existing suite shows no new failures with it.
 # On success stores /verif/seeded/<Cxx>-<X>/{patch.diff,demo.*,meta.json}.
-id="$1"; x="$2"; out=/tmp/seed/out-$id; wt=/tmp/seed/wt-$id
+id="$1"; x="$2"; round="${SEED_ROUND:-1}"
+if [ "$round" = 2 ]; then out=/tmp/seed/out2-$id; else out=/tmp/seed/out-$id; fi
+wt=/tmp/seed/wt-$id
+# round-2 changes are stored as variants C and D
+variant="$x"; if [ "$round" = 2 ]; then [ "$x" = A ] && variant=C; [ "$x" = B ] && variant=D; fi
 patch="${3:-$out/$x.patch.diff}"
 head=$(git -C /repo rev-parse HEAD)
 log=/tmp/seed/confirm-$id-$x.log; : > "$log"
@@ -42,15 +46,15 @@ git diff > /tmp/seed/applied-$id-$x.diff
 git checkout -q -- . ; git clean -qfd -e target >/dev/null 2>&1
 echo "$id-$x: demo_without=$before demo_with=$after new_suite_failures=$newfail build_errors=$builderr result_lines=$results"
 if [ "$before" = 0 ] && [ "$after" != 0 ] && [ "$after" -lt 250 ] && [ "$newfail" = 0 ] && [ "$builderr" = 0 ] && [ "$results" -ge 3 ]; then
-  d=/verif/seeded/$id-$x; mkdir -p "$d"
+  d=/verif/seeded/$id-$variant; mkdir -p "$d"
   cp /tmp/seed/applied-$id-$x.diff "$d/patch.diff"; cp "$demo" "$d/"
-  python3 - "$id" "$x" "$out" "$d" "$head" "$before" "$after" <<'PY'
+  python3 - "$id" "$x" "$out" "$d" "$head" "$before" "$after" "$variant" "$round" <<'PY'
 import json,sys,os
-id,x,out,d,head,before,after=sys.argv[1:]
+id,x,out,d,head,before,after,variant,rnd=sys.argv[1:]
 m={}
 try: m=json.load(open(f"{out}/{x}.meta.json"))
 except Exception as e: m={"note":"agent meta unreadable"}
-meta={"property":id,"variant":x,"base_commit":head,
+meta={"property":id,"variant":variant,"round":int(rnd),"agent_label":x,"base_commit":head,
  "summary":m.get("summary"),"needs_to_manifest":m.get("needs_to_manifest"),"files_touched":m.get("files_touched"),
  "confirmed_by_me":{"where":f"/tmp/seed/wt-{id} (scratch worktree, removed afterwards)",
    "demo_cmd":f"duck {os.path.basename([f for f in os.listdir(d) if '.demo.' in f][0])}",
@@ -60,7 +64,7 @@ meta={"property":id,"variant":x,"base_commit":head,
  "caught_by":None}
 json.dump(meta,open(f"{d}/meta.json","w"),indent=1)
 PY
-  echo "$id-$x: CONFIRMED -> $d"
+  echo "$id-$variant: CONFIRMED -> $d"
 else
   echo "$id-$x: NOT CONFIRMED (see $log, /tmp/seed/suite-$id-$x.txt)"
 fi
